@@ -131,7 +131,22 @@ func c09Oracle(in c09In) probe.Outcome {
 
 func c09Exponent(t *rapid.T, label string, P *big.Int) model.Bytes {
 	one := big.NewInt(1)
-	switch gen.Pick(t, label+".class", 3, 3, 4, 3, 5) {
+	switch gen.Pick(t, label+".class", 3, 3, 4, 3, 5, 3) {
+	case 5:
+		// the top of the exponent range and values around the OTHER group's prime (any 0 <= x < 2^2048 is a legal exponent for both groups)
+		d := big.NewInt(int64(rapid.IntRange(-3, 3).Draw(t, label+".delta")))
+		var base *big.Int
+		switch rapid.IntRange(0, 3).Draw(t, label+".base") {
+		case 0:
+			base = new(big.Int).Sub(new(big.Int).Lsh(one, 2048), big.NewInt(4)) // 2^2048-4 +- 3
+		case 1:
+			base = refPrime(0)
+		case 2:
+			base = refPrime(1)
+		default:
+			base = new(big.Int).Rsh(refPrime(1), 1) // (p14-1)/2, the order of the subgroup
+		}
+		return new(big.Int).Add(base, d).Bytes()
 	case 0:
 		return big.NewInt(int64(rapid.IntRange(0, 2).Draw(t, label))).Bytes()
 	case 1:
@@ -351,7 +366,10 @@ func TestC09(t *testing.T) {
 	if c.Shard == 0 {
 		for g := 0; g < 2; g++ {
 			P := refPrime(g)
-			for _, x := range []*big.Int{big.NewInt(0), big.NewInt(1), big.NewInt(2), new(big.Int).Sub(P, big.NewInt(2)), new(big.Int).Sub(P, big.NewInt(1)), P, new(big.Int).Add(P, big.NewInt(1))} {
+			top := new(big.Int).Sub(new(big.Int).Lsh(big.NewInt(1), 2048), big.NewInt(1))
+			other := refPrime(1 - g)
+			for _, x := range []*big.Int{big.NewInt(0), big.NewInt(1), big.NewInt(2), new(big.Int).Sub(P, big.NewInt(2)), new(big.Int).Sub(P, big.NewInt(1)), P, new(big.Int).Add(P, big.NewInt(1)),
+				top, new(big.Int).Sub(top, big.NewInt(1)), other, new(big.Int).Sub(other, big.NewInt(1)), new(big.Int).Add(other, big.NewInt(1))} {
 				c09Table.Eval(c, c09In{Group: g, X: x.Bytes(), X2: big.NewInt(77).Bytes(), Y: new(big.Int).Add(P, big.NewInt(5)).Bytes()})
 			}
 		}
